@@ -12,6 +12,8 @@ let channels : (string * ((string * string) list -> string)) list = [
   ("split", Chan_split.run_split);
   ("ranges", Chan_split.run_ranges false);
   ("chunks", Chan_split.run_ranges true);
+  ("scc", Chan_scc.run);
+  ("scccli", Chan_scc.run_cli);
 ]
 
 let () =
